@@ -3,7 +3,7 @@ modified; integrators return fresh arrays.  (spec/Memo.tla, spec/Trace_Memo.tla,
 
 Behaviour replay, spec -> code:
   1. TLC model-checks Memo.tla (every history of <= 3 calls over the memo-relevant bases; thorough: also <= 4 calls
-     over the core bases and every 2-call history of the full alphabet in every layout) and refutes the eight
+     over the core bases and every 2-call history of the full alphabet in every layout) and refutes the ten
      defective design variants (MemoMC_bug_*.cfg): the refinement Memo => MemoFree is not vacuous.
   2. Histories are taken from TLC:
        pair   - the state graph of all 2-call histories (-dump dot,actionlabels) gives the (writer, reader, table)
@@ -14,7 +14,7 @@ Behaviour replay, spec -> code:
                 chained into histories of 20 calls;
        sim-*  - `tlc -simulate` behaviours over the memo-relevant bases and over the full alphabet (2-40 calls).
   3. Every history is replayed in ONE process (harness/c20_worker.py) under PYTHONHASHSEED 0,1(,2); every distinct call
-     is also evaluated alone in processes that did nothing else (hash seeds 11,12(,13)), and with contiguous arguments.
+     is also evaluated alone in processes that did nothing else (hash seeds 11,13(,12)), and with contiguous arguments.
   4. The observations are judged by TLC with Trace_Memo.tla (clauses ResultIndependentOfHistory,
      ResultIndependentOfHashSeed, LayoutIndependent, ArgumentsUnchanged, ResultIsFresh, FootprintAsDeclared,
      CachedValuesImmutable, BookkeepingAsDeclared, CallCompletes).  No verdict is computed here.
@@ -27,7 +27,8 @@ PROP = 'C20'
 WORKER = os.path.join(os.path.dirname(os.path.abspath(__file__)), 'c20_worker.py')
 BUG_CFGS = {'projkey': 'ResultIndependentOfHistory', 'dbetakey': 'ResultIndependentOfHistory', 'partkey': 'ResultIndependentOfHistory',
             'raw45': 'LayoutIndependent', 'rawxx': 'LayoutIndependent', 'godaddr': 'ResultIndependentOfHistory',
-            'demes': 'ResultIndependentOfHistory', 'perturb': 'ArgumentsUnchanged'}
+            'demes': 'ResultIndependentOfHistory', 'perturb': 'ArgumentsUnchanged',
+            'hashorder': 'ResultIndependentOfHashSeed', 'sfslist': 'ArgumentsUnchanged'}
 TABLES = ['proj', 'dbeta', 'part', 'precalc', 'multinom', 'bb', 'godambe']
 
 
@@ -267,7 +268,8 @@ def observed_pairs(groups):
                 pairs.add((owner['demeslog'], r['base'], 'demeslog'))
             if r['base'].startswith('demes_output'):
                 owner['demeslog'] = r['base']
-            elif r['site'].startswith(('Integration.', 'PhiManip.', 'Godambe.', 'Inference._object_func', 'Inference.optimize_grid')) \
+            elif r['site'].startswith(('Integration.', 'PhiManip.', 'Godambe.', 'Inference._object_func', 'Inference.optimize_grid',
+                                        'LowPass.make_low_pass_func', 'Demes.SFS', 'Spectrum.from_demes')) \
                     and not (r['site'].startswith('Godambe.') and not r['tab']['godambe']['miss']):
                 owner['demeslog'] = None
     return pairs
@@ -397,7 +399,7 @@ def run(ctx):
 def _run(ctx, tmpd, t0):
     quick = ctx.quick
     replay_seeds = [0, 1] if quick else [0, 1, 2]
-    fresh_seeds = [11, 12] if quick else [11, 12, 13]
+    fresh_seeds = [11, 13] if quick else [11, 12, 13]     # (both string-hash order classes of the low-pass population labels, see c20_worker)
     par = 6
     stats = {'states': 0, 'transitions': 0}
     timing = {}
